@@ -187,3 +187,11 @@ package swamp
 // ascending / descending index of one attribute are different objects.
 //@ type swamp
 //@   invariant[indexes] self.keyBeaconASC != nil && self.keyBeaconDESC != nil && ipay(self.keyBeaconASC) != ipay(self.keyBeaconDESC) && self.creationTimeBeaconASC != nil && self.creationTimeBeaconDESC != nil && ipay(self.creationTimeBeaconASC) != ipay(self.creationTimeBeaconDESC) && self.updateTimeBeaconASC != nil && self.updateTimeBeaconDESC != nil && ipay(self.updateTimeBeaconASC) != ipay(self.updateTimeBeaconDESC) && self.expirationTimeBeaconASC != nil && self.expirationTimeBeaconDESC != nil && ipay(self.expirationTimeBeaconASC) != ipay(self.expirationTimeBeaconDESC) && self.valueBeaconASC != nil && self.valueBeaconDESC != nil && ipay(self.valueBeaconASC) != ipay(self.valueBeaconDESC)
+
+// wrapMsgpackBody: the stored value is the two magic bytes followed by exactly the patched body.
+//@ func wrapMsgpackBody(body) (out)
+//@   property C13
+//@   nopanic
+//@   ensures[magic] len(out) == len(body) + 2 && out[0] == 199 && out[1] == 0
+//@   ensures[body] forall i in 0..len(body): out[2+i] == body[i]
+//@   ensures[fresh] fresh(out)
